@@ -63,6 +63,10 @@ def judge_template(t, is_bytes, obs):
         return 'over-accept', '%s · ref=reject · obs=ok' % kind, ref
     if ref[0] == 'typeerror':
         return 'unjudged', None, ref
+    # check_specifiers(): (number of specifiers, whether they take a mapping), None when keyed and unkeyed specifiers are mixed
+    want = None if 0 < obs['keyed'] < obs['nspec'] else [obs['nspec'], obs['keyed'] > 0]
+    if obs.get('check') != want:
+        return 'check-specifiers', '%s · check_specifiers differs from the census of the parsed specifiers' % kind, ref
     if 0 < obs['keyed'] < obs['nspec']:
         return 'mixed-keys', None, ref
     got = bytes.fromhex(obs['okhex']) if is_bytes else obs['ok']
@@ -79,7 +83,7 @@ PRECS = ['', '.', '.0', '.3', '.*']
 LENMODS = {'quick': ['', 'l', 'll'], 'thorough': ['', 'h', 'l', 'L', 'll', 'hl', 'lL', 'lll']}
 TYPES = list(string.ascii_letters) + ['%']
 INTS = [0, 1, -1, 7, 255, -255, 65536, 1234567, 10 ** 20, -10 ** 20]
-FLOATS = [0.0, -0.0, 1.0, -1.5, 0.5, 1234.5678, 1e-7, 1e16, 1e22, 123456789.0, float('inf'), float('-inf'), float('nan'), 2.675, 99999.5]
+FLOATS = [0.0, -0.0, 1.0, -1.5, 0.5, 1234.5678, 1e-7, 1e16, 1e22, 123456789.0, float('inf'), float('-inf'), float('nan'), 2.675, 99999.5, 5.0, 123.0, 123456.0, 9.5, 999999.5, 2.5]
 STRS = ['', 'a', 'héllo', 'abcdefghijkl']
 CHARS = [0, 97, 255, 0x10ffff, 'a', 'é', '😀']
 BYTESV = [b'', b'ab', b'abcdefgh', b'abcdefghijkl', b'\xff\x00']
